@@ -22,6 +22,7 @@ STUBS = [
     "scipy.signal.fftconvolve (phyclone.utils.math.fftconvolve) -> exact linear convolution along the last axis",
     "xxhash.xxh3_64_hexdigest (phyclone.utils.utils) -> injective structural digest of the symbolic array (no collisions assumed)",
     "concrete float constants are read as the nearest simple rational (0.1 -> 1/10)",
+    "round(x, n) of a symbolic value -> rounding cell floor(x*10^n + 1/2), equality decided by the solver (ties-to-even at exact half-way points not modelled)",
 ]
 
 _applied = False
